@@ -266,6 +266,8 @@ def p3(ctx, fx, I):
                 if t.get("name") in REMOVERS:
                     removes.append(f)
     arrays = const_str_arrays(A)
+    for pb in A.promoted:
+        arrays += const_str_arrays(pb)  # `CONST_ARRAY.iter()` borrows a promoted copy of the constant
     keys = arrays[-1] if arrays else None
     for a in arrays:
         if set(a) == {"iss", "iat", "exp"}:
